@@ -3,6 +3,7 @@ package rules
 import (
 	"fmt"
 	"go/token"
+	"sort"
 	"strings"
 
 	"golang.org/x/tools/go/ssa"
@@ -477,7 +478,7 @@ func dashHandling(c *an.Ctx, rule string) {
 		if !inPkgs("cmd/taskctl")(fn) {
 			continue
 		}
-		for _, l := range argLoops(fn) {
+		for _, l := range argLoops(p, fn) {
 			dispatches := false
 			for b := range l.Blocks {
 				for _, in := range b.Instrs {
@@ -494,6 +495,10 @@ func dashHandling(c *an.Ctx, rule string) {
 				continue
 			}
 			n++
+			if _, cutBy := argLoopOf(p, l); cutBy != nil {
+				c.OK(rule, an.Short(fn)+":target-loop(--)", fn.Pos(), "the list the loop ranges over is cut at the first `--` by %s (verified: it returns args[:index of `--`], or args)", an.Short(cutBy))
+				continue
+			}
 			_, elems := l.RangeKeyValue()
 			ex := &an.Explorer{P: p, NoReturn: noReturn}
 			l.Bound(ex)
@@ -582,7 +587,41 @@ func missingKey(c *an.Ctx, r *runnerRoles, cc *ssa.Function, rule string) {
 	}
 	// every Template.Execute in RenderString is on a template that went through Option("missingkey=error")
 	n := 0
-	for _, ci := range an.CallsIn(rs, "(*text/template.Template).Execute") {
+	// (the rendering may be split into helpers of pkg/utils: every Execute under RenderString counts)
+	rsScope := p.Reach([]*ssa.Function{rs}, func(e an.CallEdge) bool { return e.Kind == an.EdgeCall && an.Outer(e.Callee).Pkg == rs.Pkg })
+	var execs []ssa.CallInstruction
+	for f := range rsScope {
+		execs = append(execs, an.CallsIn(f, "(*text/template.Template).Execute")...)
+	}
+	sort.Slice(execs, func(i, j int) bool { return execs[i].Pos() < execs[j].Pos() })
+	var returnedUpTo func(ci ssa.CallInstruction, depth int) (bool, string)
+	returnedUpTo = func(ci ssa.CallInstruction, depth int) (bool, string) {
+		fate := p.ErrFate(ci, noReturn)
+		if fate.Kind != "propagated" && fate.Kind != "converted" {
+			return false, fate.Detail
+		}
+		f := an.Outer(ci.Parent())
+		if f == rs {
+			return true, ""
+		}
+		if depth == 0 {
+			return false, "helper chain too deep"
+		}
+		sites := p.CallSitesOf(f)
+		if len(sites) == 0 {
+			return false, an.Short(f) + " has no caller"
+		}
+		for _, cs := range sites {
+			if _, in := rsScope[an.Outer(cs.Parent())]; !in {
+				continue
+			}
+			if ok, why := returnedUpTo(cs, depth-1); !ok {
+				return false, why
+			}
+		}
+		return true, ""
+	}
+	for _, ci := range execs {
 		n++
 		recv := ci.Common().Args[0]
 		okOpt := false
@@ -594,7 +633,7 @@ func missingKey(c *an.Ctx, r *runnerRoles, cc *ssa.Function, rule string) {
 			}
 			seen[v] = true
 			// (a template prepared by a helper of pkg/utils is followed into the helper)
-			for _, src := range p.DeepSources(v, 3, false) {
+			for _, src := range p.DeepSources(v, 3, an.Outer(ci.Parent()) != rs) {
 				switch x := src.(type) {
 				case *ssa.Extract:
 					walk(x.Tuple)
@@ -631,8 +670,8 @@ func missingKey(c *an.Ctx, r *runnerRoles, cc *ssa.Function, rule string) {
 		walk(recv)
 		c.Check(okOpt, rule, an.Short(rs)+":missingkey=error", ci.Pos(), "the executed template was built with option missingkey=error", "RenderString executes a template without option missingkey=error: an undefined variable renders as <no value> instead of failing")
 		// and Execute's error is returned
-		fate := p.ErrFate(ci, noReturn)
-		c.Check(fate.Kind == "propagated" || fate.Kind == "converted", rule, an.Short(rs)+":err(Execute)", ci.Pos(), "a rendering error is returned", "a rendering error is dropped: "+fate.Detail)
+		retd, whyNot := returnedUpTo(ci, 3)
+		c.Check(retd, rule, an.Short(rs)+":err(Execute)", ci.Pos(), "a rendering error is returned", "a rendering error is dropped: "+whyNot)
 	}
 	if n == 0 {
 		c.Und(rule, an.Short(rs)+":Execute", rs.Pos(), "RenderString executes no template")
